@@ -101,6 +101,10 @@ def neighbours(u, f, answer_events):
     return out
 
 
+def known_events(log):
+    return [e for e in log if isinstance(e, dict)]
+
+
 async def ask(rig, conn, f, counters):
     ans = await qcore.run_req(rig, conn, [f])
     counters["reqs"] = counters.get("reqs", 0) + 1
@@ -153,6 +157,18 @@ async def run_store(backend, store_seed, nbases, counters, coverage, explicit=No
                          {"related": f2})
                 if a0:
                     nontrivial.append(h([backend, "and", store_seed, f, f2]))
+            # the same filter narrowed to the events created exactly at its bounds: served by
+            # another plan (ids), it must not return anything the wider filter does not
+            bounds = [f[k] for k in ("since", "until") if k in f]
+            at_bound = sorted(e["id"] for e in known_events(log) if e["created_at"] in bounds)[-6:]
+            if at_bound and "ids" not in f:
+                fb = dict(f, ids=at_bound)
+                ab = await ask(rig, conn, fb, counters)
+                bump("and")
+                if ab is not None and not ab <= a0:
+                    viol("monotone/and/ids-at-bound", "Q(%s) returned %d events not in Q(%s)" % (json.dumps(fb)[:250], len(ab - a0), json.dumps(f)[:250]), f, {"related": fb})
+                if ab:
+                    nontrivial.append(h([backend, "and-bound", store_seed, f]))
             f3 = dict(f)
             if "since" in f3:
                 f3["since"] += u.rng.choice([1, 2, 255, 256])
